@@ -17,11 +17,11 @@ theorem OpBudget.of_loopOk {f : OpFn}
 /-- an operator that does not look at its budget -/
 theorem OpBudget.of_indep {f : OpFn} (h : ∀ flags m m' args c, f flags m args c = f flags m' args c) :
     OpBudget f :=
-  fun flags m m' args c r hr => ⟨Or.inl (h flags m m' args c ▸ hr), fun _ => h flags m m' args c ▸ hr⟩
+  fun flags m m' args c _ hr => ⟨Or.inl (h flags m m' args c ▸ hr), fun _ => h flags m m' args c ▸ hr⟩
 
 theorem OpBudgetErr.of_indep {f : OpFn} (h : ∀ flags m m' args c, f flags m args c = f flags m' args c) :
     OpBudgetErr f :=
-  fun flags m m' args c e he _ _ => h flags m m' args c ▸ he
+  fun flags m m' args c _ he _ _ => h flags m m' args c ▸ he
 
 theorem ok_ne_ce {α} {a : α} : (Except.ok a : Except Err α) ≠ .error .CostExceeded := fun h => nomatch h
 
@@ -906,5 +906,88 @@ theorem opUnknown_budgetErr (op : Bytes) : OpBudgetErr (opUnknown op) := by
             simp only [hc] at h
             simp only [checkCost_mono hle hc]
             exact h
+
+/-! ### the wrap-around of the old cost model is real (DESIGN §6-B) -/
+
+/-- the opcode `3fffffffc0`: cost function 3 (concat), multiplier 2^30 − 1 -/
+def wrapOp : Bytes := [0x3f, 0xff, 0xff, 0xff, 0xc0]
+
+theorem wrap_base (b : Bytes) (hb : b.length = 5726622969) (m : Nat) :
+    unknownBase wrapOp 0 m (.pair (.atom b false) Val.nil) =
+      match checkCost (2 ^ 34) m with
+      | .error e => .error e
+      | .ok () => .ok (2 ^ 34) := by
+  have h3 : unknownCostFunction wrapOp = 3 := by decide
+  unfold unknownBase
+  rw [h3]
+  show unknownConcat m (argList (.pair (.atom b false) Val.nil)) Gen.CONCAT_BASE_COST = _
+  simp only [argList, Val.nil, unknownConcat, atomLen, hb]
+  have : Gen.CONCAT_BASE_COST + Gen.CONCAT_COST_PER_ARG + Gen.CONCAT_COST_PER_BYTE * 5726622969 = 2 ^ 34 := by decide
+  rw [this]
+  cases checkCost (2 ^ 34) m <;> rfl
+
+/-- **DESIGN §6-B as a theorem**: in the old cost model the opcode `3fffffffc0` applied to one
+argument of 5 726 622 969 bytes has base cost 2^34 and multiplier 2^30; the product wraps to 0.  The call
+succeeds under budget 2^34 with charged cost 0 … -/
+theorem opUnknown_wrap_ok (b : Bytes) (hb : b.length = 5726622969) (c : Ctr) :
+    opUnknown wrapOp 0 (2 ^ 34) (.pair (.atom b false) Val.nil) c = .ok (0, Val.nil, c) := by
+  have hr : unknownReserved wrapOp = false := by decide
+  have hm : unknownMult wrapOp = some (2 ^ 30 - 1) := by decide
+  have hnm : newModel 0 = false := by decide
+  simp only [opUnknown_eq, hr, hm, wrap_base b hb, checkCost_of_le (Nat.le_refl _), Bool.false_eq_true, ↓reduceIte]
+  have hz : ((2 : Nat) ^ 34 == 0) = false := by decide
+  simp only [hz, Bool.false_eq_true, ↓reduceIte, unknownFinish, hnm]
+  have hw : (2 : Nat) ^ 34 * (2 ^ 30 - 1 + 1) % 2 ^ 64 = 0 := by decide
+  simp only [hw]
+  rfl
+
+/-- … and fails with `CostExceeded` under budget 0, although the charged cost 0 is within that budget. -/
+theorem opUnknown_wrap_fail (b : Bytes) (hb : b.length = 5726622969) (c : Ctr) :
+    opUnknown wrapOp 0 0 (.pair (.atom b false) Val.nil) c = .error .CostExceeded := by
+  have hr : unknownReserved wrapOp = false := by decide
+  have hm : unknownMult wrapOp = some (2 ^ 30 - 1) := by decide
+  simp only [opUnknown_eq, hr, hm, wrap_base b hb, checkCost_of_lt (show 0 < 2 ^ 34 by decide), Bool.false_eq_true,
+    ↓reduceIte]
+
+/-- `OpBudget (opUnknown op)` is **false** for `op = 3fffffffc0` (old cost model, `wrapping_mul`) -/
+theorem opUnknown_budget_witness : ¬ OpBudget (opUnknown wrapOp) := by
+  intro h
+  have hlen : (List.replicate 5726622969 (0 : UInt8)).length = 5726622969 := List.length_replicate
+  have h1 := opUnknown_wrap_ok _ hlen default
+  have h2 := opUnknown_wrap_fail _ hlen default
+  have h3 := (h 0 (2 ^ 34) 0 _ default _ h1).2 (Nat.le_refl 0)
+  rw [h2] at h3
+  cases h3
+
+
+/-! ### aggregates -/
+
+/-- **C02, per-operator layer**: every operator of the core table satisfies `OpBudget` -/
+theorem coreOps_budget (cfg : Cfg) (name : String) (f : OpFn) (h : coreOpByName cfg name = some f) :
+    OpBudget f := by
+  unfold coreOpByName at h
+  split at h <;> (try cases h) <;> first
+    | exact opIf_budget | exact opCons_budget | exact opFirst_budget | exact opRest_budget
+    | exact opListp_budget | exact opRaise_budget | exact opEq_budget | exact opGrBytes_budget
+    | exact opSha256_budget _ | exact opSubstr_budget | exact opStrlen_budget | exact opConcat_budget
+    | exact opAdd_budget _ | exact opSubtract_budget _ | exact opMultiply_budget _ | exact opDiv_budget
+    | exact opDivmod_budget | exact opGr_budget _ | exact opAsh_budget | exact opLsh_budget
+    | exact opLogand_budget | exact opLogior_budget | exact opLogxor_budget | exact opLognot_budget
+    | exact opNot_budget | exact opAny_budget | exact opAll_budget | exact opModpow_budget
+    | exact opMod_budget
+
+/-- every operator of the core table satisfies `OpBudgetErr` -/
+theorem coreOps_budgetErr (cfg : Cfg) (name : String) (f : OpFn) (h : coreOpByName cfg name = some f) :
+    OpBudgetErr f := by
+  unfold coreOpByName at h
+  split at h <;> (try cases h) <;> first
+    | exact opIf_budgetErr | exact opCons_budgetErr | exact opFirst_budgetErr | exact opRest_budgetErr
+    | exact opListp_budgetErr | exact opRaise_budgetErr | exact opEq_budgetErr | exact opGrBytes_budgetErr
+    | exact opSha256_budgetErr _ | exact opSubstr_budgetErr | exact opStrlen_budgetErr | exact opConcat_budgetErr
+    | exact opAdd_budgetErr _ | exact opSubtract_budgetErr _ | exact opMultiply_budgetErr _ | exact opDiv_budgetErr
+    | exact opDivmod_budgetErr | exact opGr_budgetErr _ | exact opAsh_budgetErr | exact opLsh_budgetErr
+    | exact opLogand_budgetErr | exact opLogior_budgetErr | exact opLogxor_budgetErr | exact opLognot_budgetErr
+    | exact opNot_budgetErr | exact opAny_budgetErr | exact opAll_budgetErr | exact opModpow_budgetErr
+    | exact opMod_budgetErr
 
 end Clvm.Interp
